@@ -105,6 +105,32 @@ def bands_of(ds):
     return [(n, np.array(data[:, :, i], dtype=np.float64)) for i, n in enumerate(names)]
 
 
+class ImplRaised(Exception):
+    """the real Pandora code raised on an input of the property's domain"""
+
+    def __init__(self, where, exc):
+        super().__init__(f"{where}: {type(exc).__name__}: {exc}")
+        self.where = where
+        self.kind = type(exc).__name__
+
+
+def guarded(where):
+    def deco(fn):
+        def wrapper(*a, **k):
+            try:
+                return fn(*a, **k)
+            except ImplRaised:
+                raise
+            except Exception as exc:  # pylint: disable=broad-except
+                raise ImplRaised(where, exc) from exc
+
+        wrapper.__name__ = fn.__name__
+        return wrapper
+
+    return deco
+
+
+@guarded("confidence_prediction")
 def predict(cfg, cv, disp=None, img_left=None, img_right=None):
     with warnings.catch_warnings():
         warnings.simplefilter("ignore")
@@ -139,6 +165,7 @@ def run_bounds(cost, disp, type_measure, threshold):
     return inf, sup, cv
 
 
+@guarded("to_disp")
 def run_wta(cv, invalid=np.nan):
     """the later disparity step on a cost-volume dataset: disparity map (NaN where invalid) and the dataset"""
     with warnings.catch_warnings():
@@ -148,6 +175,7 @@ def run_wta(cv, invalid=np.nan):
     return np.array(out["disparity_map"].data, dtype=np.float64), out
 
 
+@guarded("interval_regularization")
 def run_regularization(inf, sup, amb, threshold, kernel, depth, quantile):
     with warnings.catch_warnings():
         warnings.simplefilter("ignore")
@@ -171,12 +199,15 @@ def make_left_image(data, bands=None):
 
 def run_std(img_data, window, bands=None, band=None):
     img = make_left_image(img_data, bands)
+    # a different right image, as in the pipeline (the band must not depend on it)
+    other = make_left_image(np.asarray(img_data)[..., ::-1, ::-1] * 2 + 1, bands)
     nrow, ncol = (img_data.shape[-2], img_data.shape[-1])
     cv = make_cv(np.zeros((nrow, ncol, 2), dtype=np.float32), [0, 1], "min", window=window, band=band)
-    _, cv = predict({"confidence_method": "std_intensity"}, cv, None, img, None)
+    _, cv = predict({"confidence_method": "std_intensity"}, cv, None, img, other)
     return last_bands(cv, 1)[0][1], cv
 
 
+@guarded("allocate_confidence_map")
 def allocate(name, cmap, disp, cv):
     return cvc.AbstractCostVolumeConfidence.allocate_confidence_map(name, np.asarray(cmap, dtype=np.float32), disp, cv)
 
@@ -224,6 +255,7 @@ def make_pair(left, right, dmin, dmax, mask_left=None, mask_right=None):
     return one(left, mask_left), one(right, mask_right)
 
 
+@guarded("pandora.run")
 def run_pipeline(left, right, dmin, dmax, pipeline, mask_left=None, mask_right=None):
     """pandora.run on a fresh machine; returns (left dataset, right dataset, machine)"""
     img_l, img_r = make_pair(left, right, dmin, dmax, mask_left, mask_right)
